@@ -570,7 +570,13 @@ def bounds_rows_match_files(P, R, reader, perform):
     rm = P.func(PQ, '_read_metadata')
 
     def calls(f, target):
-        return lambda v: any(isinstance(c, ast.Call) and astq.is_call_to(P, f, c, target) for c in ast.walk(v))
+        # a call of `target`, or of a repository helper that (transitively) calls it: the metadata read may live in a helper of the loader
+        def hit(c):
+            if astq.is_call_to(P, f, c, target):
+                return True
+            r = P.resolve_call(f, c)
+            return bool(r and r[0] == 'func' and r[1] is not f and astq.performs(P, r[1], lambda c2, g: astq.is_call_to(P, g, c2, target), depth=3))
+        return lambda v: any(isinstance(c, ast.Call) and hit(c) for c in ast.walk(v))
     found, selected, seen = [], [], 0
     for f, seed in ((reader, calls(reader, rm)), (perform, calls(perform, reader))):
         T = _flow_names(f, seed)
